@@ -529,29 +529,19 @@ def file_list(p, fmt="json"):
 def literal_operands(p):
     """literal counts occurring in foreign-key args: the plural-category oracle must cover them"""
     ops = set()
+    pat = re.compile(r'"(?:\s|\\t|\\n)*count(?:\s|\\t|\\n)*"\s*:\s*(-?[0-9][0-9.]*)')
 
     def walk(j):
         if isinstance(j, str):
-            i = 0
-            while True:
-                i = j.find('"count"', i)
-                if i < 0:
-                    break
-                rest = j[i + 7:].lstrip().lstrip(":").lstrip()
-                tok = ""
-                for ch in rest:
-                    if ch in "-0123456789.":
-                        tok += ch
-                    else:
-                        break
-                if tok and tok not in ("-", "."):
-                    if "." in tok:
-                        ops.add("f:" + tok.rstrip("0").rstrip(".") if "." in tok else tok)
-                    elif tok.startswith("-"):
-                        ops.add("i:" + tok)
-                    else:
-                        ops.add("u:" + tok)
-                i += 7
+            for tok in pat.findall(j):
+                if tok in ("-", "."):
+                    continue
+                if "." in tok:
+                    ops.add("f:" + tok.rstrip("0").rstrip("."))
+                elif tok.startswith("-"):
+                    ops.add("i:" + tok)
+                else:
+                    ops.add("u:" + tok)
         elif isinstance(j, dict):
             for v in (j.get("a") or []):
                 walk(v)
